@@ -1,6 +1,6 @@
 (* C10 - mesh topology is independent of encoding and internally consistent. *)
 From Coq Require Import ZArith List Bool.
-From EV Require Import Base.Index Base.ListX Model.Topology Proofs.TopologyP.
+From EV Require Import Base.Index Base.ListX Model.Topology Proofs.TopologyP Proofs.TopologyP2.
 Import ListNotations.
 Open Scope Z_scope.
 
@@ -70,3 +70,22 @@ Print Assumptions C10_face_faces.
 Theorem C10_adjacency_symmetric : forall fe f g, shares_edge fe f g = shares_edge fe g f.
 Proof. exact shares_edge_sym. Qed.
 Print Assumptions C10_adjacency_symmetric.
+
+(* every derived table agrees with the tables it is derived from *)
+(* face -> edge, as coded (last matching edge row), given an edge list that covers every side of every face *)
+Theorem C10_derived_face_edge : forall fn en,
+  (forall f q, In f fn -> In q (node_pairs f) ->
+     exists e a b, nth_error en e = Some [a; b] /\ same_pair q (a, b) = true) ->
+  face_edges_ok fn en (mk_fe_impl fn en) = true.
+Proof. exact mk_fe_ok. Qed.
+Print Assumptions C10_derived_face_edge.
+
+(* edge -> face, as coded: an edge lists exactly the faces whose face_edge row contains it *)
+Theorem C10_derived_edge_face : forall fe ne, 0 <= ne -> edge_faces_ok fe (mk_ef fe ne) ne = true.
+Proof. exact mk_ef_ok. Qed.
+Print Assumptions C10_derived_edge_face.
+
+(* face -> face, reference derivation (the implementation's rows hold the same faces in edge order; compared per run) *)
+Theorem C10_derived_face_face : forall fe, face_faces_ok fe (mk_ff fe) = true.
+Proof. exact mk_ff_ok. Qed.
+Print Assumptions C10_derived_face_face.
